@@ -48,6 +48,23 @@ def concrete(inp):
     bad = []
     import numpy as _np
     scatter = [1.0, 1.07, 0.93, 1.12][:n]
+    # mixed sets: one experiment states an energy that is not the slope of the data, the others state none
+    for which in (0, n - 1):
+        if n < 2:
+            break
+        Es = E * 0.6 + 5000.0
+        exps = [IdealExperiment(name="m", temperature=t, component=c1, permeance=pv.Permeance(P0 * math.exp(-E / RG * (1 / t - 1 / 323.15))),
+                                activation_energy=Es if k == which else None) for k, t in enumerate(temps)]
+        mem = Membrane(name="m", ideal_experiments=IdealExperiments(experiments=exps))
+        for Tq in [T] + [t + 1.5 for t in temps] + [t - 1.5 for t in temps]:
+            tn = min(temps, key=lambda t: abs(t - Tq))
+            Eo = Es if temps.index(tn) == which else E
+            want = P0 * math.exp(-E / RG * (1 / tn - 1 / 323.15)) * math.exp(-Eo / RG * (1 / Tq - 1 / tn))
+            got = mem.get_permeance(Tq, c1).value
+            if not close(got, want, 1e-7):
+                bad.append("mixed set (experiment %d of %r states Ea=%r, data on a line with E=%r): permeance at %r K is %r, nearest experiment (%r K) with %s energy gives %r"
+                           % (which, temps, Es, E, Tq, float(got), tn, "its stated" if temps.index(tn) == which else "the regressed", want))
+                break
     for data in ("line", "scattered"):
         for stated in (False, True):
             if not stated and n < 2:
@@ -135,8 +152,12 @@ def _membrane(n, stated, units, line):
             Ps.append(pk)
             # experiment permeance given in `units`; its kg value is pk
             v = pk * factor(Units.kg_m2_h_kPa, c.molecular_weight) / factor(units, c.molecular_weight)
-            ex = IdealExperiment(name="m", temperature=Ts[j], component=c, permeance=build.perm(SReal(v), units),
-                                 activation_energy=(real("Ea%d_%d" % (ci, j)) if stated == "own" else E if stated else None))
+            if stated in ("mixed_first", "mixed_last"):
+                # one experiment states an energy Es (not the slope of the data), the others state none
+                ea = real("Es%d" % ci) if j == (0 if stated == "mixed_first" else n - 1) else None
+            else:
+                ea = real("Ea%d_%d" % (ci, j)) if stated == "own" else E if stated else None
+            ex = IdealExperiment(name="m", temperature=Ts[j], component=c, permeance=build.perm(SReal(v), units), activation_energy=ea)
             exps.append(ex)
         info[ci] = dict(Ts=Ts, E=E, P0=P0, Tref=Tref, Ps=Ps, comp=c)
     # interleave the components' experiments (order must not matter)
@@ -151,9 +172,10 @@ def permeance(job, n, stated, units):
     job.assume("distinct experiment temperatures in (273, 400), query temperature in (260, 420), no ties between nearest experiments",
                "activation energies in [-60, 120] kJ/mol, permeances > 0, molar masses > 0", "LOG of a product with EXP factors is split (positive arguments)")
     T = real("T")
-    tag = "C12/n%d/%s/%s" % (n, {None: "unstated", True: "stated", "own": "stated_each"}[stated], {"kg/(m2*h*kPa)": "kg"}.get(units, units))
-    line = stated is None
-    if stated is None and n < 2:
+    tag = "C12/n%d/%s/%s" % (n, {None: "unstated", True: "stated", "own": "stated_each", "mixed_first": "mixed_first_stated", "mixed_last": "mixed_last_stated"}[stated],
+                            {"kg/(m2*h*kPa)": "kg"}.get(units, units))
+    line = stated is None or stated in ("mixed_first", "mixed_last")
+    if line and n < 2:
         return
     mem, info, dom0 = _membrane(n, stated, units, line)
     i1 = info[1]
@@ -184,8 +206,10 @@ def permeance(job, n, stated, units):
                 near_T = z3.If(c, i1["Ts"][j].t, near_T)
                 near_P = z3.If(c, i1["Ps"][j], near_P)
                 best = z3.If(c, dist[j], best)
-            if stated == "own":
-                eas = [lift(e.activation_energy) for e in mem.ideal_experiments.experiments if e.component is i1["comp"]]
+            if stated in ("own", "mixed_first", "mixed_last"):
+                # the nearest experiment's own stated energy, else the regressed one (= E for data on a line)
+                eas = [lift(e.activation_energy) if e.activation_energy is not None else i1["E"].t
+                       for e in mem.ideal_experiments.experiments if e.component is i1["comp"]]
                 Eo = eas[0]
                 b2 = dist[0]
                 for j in range(1, n):
@@ -198,7 +222,7 @@ def permeance(job, n, stated, units):
             job.prove(tag + "/arrhenius_of_nearest", cs, lift(P.value) != want, R_, inputs, fallback=fb, congruence=["EXP"], timeout=40)
             job.record(tag + "/units", "discharged" if P.units == Units.kg_m2_h_kPa else "violated", "units %r" % P.units, nontrivial=False,
                        replay={"fn": R_, "inputs": fb[0]})
-            if line and Ea is not None:
+            if stated is None and Ea is not None:
                 job.prove(tag + "/regression_recovers_E", cs, lift(Ea) != i1["E"].t, R_, inputs, fallback=fb, timeout=40)
                 # on an Arrhenius line the permeance is P0 exp(-E/R (1/T - 1/Tref)) whichever experiment is nearest
                 ref = i1["P0"].t * EXP(-i1["E"].t / rv(RG) * (1 / T.t - 1 / i1["Tref"].t))
@@ -208,7 +232,7 @@ def permeance(job, n, stated, units):
                 pass
             job.twin_sat(tag + "/twin", cs)
         if not got:
-            job.vacuity["failed"].append(tag)
+            job.unreached(tag)
         # at an experiment's temperature the measured value is returned
         for j in range(n):
             Tj = i1["Ts"][j]
@@ -264,8 +288,8 @@ def jobs(tier):
     ns = (1, 2, 3) if tier == "quick" else (1, 2, 3, 4)
     js = []
     for n in ns:
-        for stated in (None, True, "own"):
-            if stated is None and n < 2:
+        for stated in (None, True, "own", "mixed_first", "mixed_last"):
+            if stated in (None, "mixed_first", "mixed_last") and n < 2:
                 continue
             for units in ((Units.kg_m2_h_kPa,) if (tier == "quick" and n == 3) else (Units.kg_m2_h_kPa, Units.SI, Units.GPU)):
                 js.append(("perm_n%d_%s_%s" % (n, stated, units[:2]), "permeance", {"n": n, "stated": stated, "units": units}))
